@@ -23,12 +23,12 @@ ID = "C05"
 LEVEL = "fault_enumeration"
 TECHNIQUE = "exhaustive crash-point enumeration: fork, kill at file-system event k (torn writes), real resume with cleanup=False; depth-2 crash sequences; every user-function call as raise/kill point"
 RULE = ("pipelines of C03's family x storage {file_array, dict+persist, shared_memory_dict+persist, mix} x start state {no folder, folder of a previous "
-        "complete run (cleanup=True interrupted)} x EVERY file-system event of the run (mkdir, open-for-write, every write call with torn fractions, close, "
+        "complete run (cleanup=True interrupted)} x {sequential, parallel code path through the deferred executor with its default schedule} x EVERY file-system event of the run (mkdir, open-for-write, every write call with torn fractions, close, "
         "rename, unlink, rmdir) as the death point; quick coalesces the ~80 tiny json writes of run_info.json to {first, middle, last}; every (function, call "
         "index) as raise and as kill point; thorough: all events, fractions {0,1/4,1/2,3/4}, and a second crash at every event of the resumed run. "
         "non-trivial = distinct (pipeline, storage, start, event kind, file role) class")
 ASSUMPTIONS = ["crash model = process death: completed write() calls survive, no reordering, no fsync semantics",
-               "sequential execution, so the event numbering of the reference run equals that of the crashed run (PYTHONHASHSEED pinned)",
+               "deterministic execution (sequential, or the deferred executor's default schedule), so the event numbering of the reference run equals that of the crashed run (PYTHONHASHSEED pinned)",
                "for the 'previous complete run' start state only correctness of the resumed result is demanded (whether leftovers of the old run may be reused is not specified)"]
 BUDGET = {"quick": 85.0, "thorough": 1200.0}
 
@@ -62,10 +62,18 @@ def do_map(cfg, folder, cleanup, fault=None):
     terms.LOG.clear()
     p = gen_map.build(spec, hook=hook)
     inputs = gen_map.make_inputs(spec, "list")
+    par = {}
+    if cfg.get("exec") == "deferred":
+        # parallel code path with a deterministic schedule: tasks are submitted to the deferred executor and run in
+        # submission order when their results are awaited (worker-side dumps, parent-side post-processing)
+        from .. import explore, sched
+        par = {"parallel": True, "executor": sched.DeferredExecutor(sched.Sched(explore.Chooser(), eager_points=False))}
+    else:
+        par = {"parallel": False}
     with contextlib.redirect_stdout(io.StringIO()), warnings.catch_warnings():
         warnings.simplefilter("ignore")
-        r = p.map(dict(inputs), run_folder=folder, internal_shapes=gen_map.internal_shapes_arg(spec), parallel=False,
-                  storage=c03.storage_arg(cfg["storage"]), cleanup=cleanup, persist_memory=True)
+        r = p.map(dict(inputs), run_folder=folder, internal_shapes=gen_map.internal_shapes_arg(spec),
+                  storage=c03.storage_arg(cfg["storage"]), cleanup=cleanup, persist_memory=True, **par)
     out = {o: terms.T(r[o].output) for f in spec["funcs"] for o in f["outs"]}
     loaded = {}
     crashfs.Ctl.root = None
@@ -173,7 +181,8 @@ def _prepare(cfg, base):
 def judge_resume(cfg, code, res, want, calls, stored, label):
     """oracle on the final resumed run; returns [(sig, text)]"""
     spec = PIPES[cfg["pipe"]]
-    base = {"pipe": cfg["pipe"], "storage": cfg["storage"] if isinstance(cfg["storage"], str) else "mix", "start": cfg["start"]}
+    base = {"pipe": cfg["pipe"], "storage": cfg["storage"] if isinstance(cfg["storage"], str) else "mix", "start": cfg["start"],
+            "exec": cfg.get("exec", "sequential")}
     if code != 0 or not res or not res.get("ok"):
         exc = (res or {}).get("exc", f"exit{code}")
         msg = (res or {}).get("msg", "")
@@ -276,6 +285,9 @@ def configs(tier):
         for st in storage_opts(spec, tier):
             for start in ("fresh", "previous-run"):
                 out.append({"pipe": pipe, "storage": st, "start": start})
+        # the parallel code path (deferred executor, deterministic default schedule)
+        for st in (("file_array", "dict") if tier == "quick" else storage_opts(spec, tier)):
+            out.append({"pipe": pipe, "storage": st, "start": "fresh", "exec": "deferred"})
     return out
 
 
@@ -319,7 +331,8 @@ def run_unit(unit):
             if i % n != c:
                 continue
             ev = events[k - 1]
-            acc.case(hash((cfg["pipe"], stname, cfg["start"], ev[1], role_of(ev[2]), bool(fr))))
+            acc.case(hash((cfg["pipe"], stname, cfg["start"], cfg.get("exec"), ev[1], role_of(ev[2]), bool(fr))))
+            acc.stratum("exec-" + cfg.get("exec", "sequential"))
             acc.stratum(f"event-{ev[1]}")
             acc.stratum(f"role-{role_of(ev[2])}")
             if fr:
